@@ -204,12 +204,16 @@ class JSONHandler(BaseHandler):
     # NOTE(kgriffs): Make content_type a kwarg to support the
     #   Request.render_body() shortcut optimization.
     def _serialize_s(self, media: Any, content_type: Optional[str] = None) -> bytes:
-        return self._dumps(media).encode()  # type: ignore[union-attr]
+        # NOTE: A lone surrogate (e.g., from json.loads('"\\ud83d"')) has no UTF-8
+        #   form; emit it as the equivalent JSON escape instead of failing.
+        text: str = self._dumps(media)  # type: ignore[assignment]
+        return text.encode('utf-8', 'backslashreplace')
 
     async def _serialize_async_s(
         self, media: Any, content_type: Optional[str]
     ) -> bytes:
-        return self._dumps(media).encode()  # type: ignore[union-attr]
+        text: str = self._dumps(media)  # type: ignore[assignment]
+        return text.encode('utf-8', 'backslashreplace')
 
     # NOTE(kgriffs): Make content_type a kwarg to support the
     #   Request.render_body() shortcut optimization.
